@@ -1,8 +1,7 @@
 #!/bin/bash
-# Run once after a fresh restore, offline: build the harness binaries from files on disk and
-# run the machinery self-test (the binding must bite).
+# Run once after a fresh restore, offline: build the harness binaries from files on disk.
 set -euo pipefail
-cd /verif
+cd ${VERIF_HOME:-/verif}
 mkdir -p build run evidence
-bin/build.sh ksim
-echo "setup: ksim built"
+bin/build.sh ksim storex frontx routex pollx queuex
+echo "setup: harness binaries built"
